@@ -93,7 +93,7 @@ func VH_C03_delete_loc() {
 
 // ---- Family A (API level): gts.Delete / gts.Erase / gts.Slice on sequences ---------------------
 
-//verif:harness prop=C03 quick=6 thorough=12 merge=concrete timeout=1500
+//verif:harness prop=C03 quick=6 thorough=12 merge=concrete timeout=1500 steps=250000000
 //verif:bounds API level: sequence of 4 (quick) / 5 (thorough) symbolic residues, source + one tagged feature (range/point/between | 2-part join | complemented range | 2-part order; symbolic coordinates and flags); Delete and Erase for every (i,n) with i+n<=L; Slice for every window incl. wrap-around (e<s), empty windows and negative indices
 func VH_C03_api() {
 	sh := vShard(6 + 6*vTier())
